@@ -191,6 +191,11 @@ impl H263State {
                 vec![DecodedDctBlock::Zero; level_dimensions.0 * level_dimensions.1 / 4 / 64];
 
             loop {
+                //A picture never holds more macroblocks than its dimensions allow
+                if macroblock_types.len() >= mb_per_line * mb_height {
+                    break;
+                }
+
                 let mb = decode_macroblock(
                     reader,
                     next_decoded_picture.as_header(),
